@@ -578,13 +578,17 @@ def gen_c19_large(seed, index):
     npc = G.gen_np(rng, npk, len(arms), d)
     if npc["k"] in ("radius", "lsh"):
         npc["probs"] = None
-    n = rng.choice([129, 200, 256, 257, 300, 130])
+    n = rng.choice([129, 200, 256, 257, 300, 130, 1025, 1777, 2500])
     rew = (lambda: rng.choice([0, 1])) if lpk == "thompson" else (lambda: rng.choice([0, 1, 2, 3, 5]))
     rows = [[float(rng.randint(0, 6)), float(rng.randint(0, 6))] for _ in range(n)]
+    if index % 4 == 1 and lpk != "thompson":
+        # money with cents, coordinates with a large offset: every value near a whole number relative to its magnitude
+        rew = lambda: 100000.0 + rng.choice([0, 1, 2, 3, 5]) + rng.choice([0.77, 0.25, 0.5, 0.01])          # noqa: E731
+        rows = [[2500000.0 + x + 0.372, 2500000.0 + y + 0.5] for x, y in rows]
     fit = {"op": "fit", "d": [rng.choice(arms) for _ in range(n)], "r": [rew() for _ in range(n)], "c": rows}
-    q = {"op": "pexp", "c": [list(rows[i]) for i in (0, n // 2, n - 1, n - 2)] + [[3.0, 3.0]]}
+    q = {"op": "pexp", "c": [list(rows[i]) for i in (0, n // 2, n - 1, n - 2, n // 3, (2 * n) // 3)] + [[3.0, 3.0]]}
     more = {"op": "pfit", "d": [rng.choice(arms) for _ in range(5)], "r": [rew() for _ in range(5)],
-            "c": [[float(rng.randint(0, 6)), float(rng.randint(0, 6))] for _ in range(5)]}
+            "c": [list(rows[rng.randrange(n)]) for _ in range(5)]}
     cfg = {"lp": lp, "np": npc, "arms": arms, "seed": rng.randint(0, 10 ** 6), "binz": None, "n_jobs": 1}
     return {"cfg": cfg, "ops": [fit], "cont": [dict(q), dict(q, op="pred"), more, dict(q)],
             "how": ["deepcopy", "pickle2", "pickle4", "pickle5", "pickle3"][index % 5]}
@@ -667,6 +671,38 @@ def gen_c17(seed, index):
         g.op_train("pfit")
         g.op_query()
         return {"cfg": g.cfg, "ops": g.ops}
+    if index % 25 == 19:
+        # a rejection that is only discovered deep inside a large call: a non-finite reward in row 600 of 700; or a call
+        # with another number of columns on a bandit that stores more than 2^13 context values
+        rng = random.Random("%s/C17-large/%s" % (seed, index))
+        late = index % 50 == 19
+        npk = rng.choice([None, "knn", "radius", "lsh"]) if late else rng.choice(["knn", "radius", "lsh"])
+        lpk = rng.choice(["greedy", "ucb", "thompson", "linucb"]) if npk is None else rng.choice(["greedy", "ucb", "thompson"])
+        lp = G.gen_lp(rng, lpk)
+        if "eps" in lp:
+            lp["eps"] = 0.0
+        arms = [1, 2, 3]
+        d = 3 if late else 12
+        npc = G.gen_np(rng, npk, len(arms), d)
+        if npc and npc["k"] in ("radius", "lsh"):
+            npc["probs"] = None
+        if npc and npc["k"] == "radius":
+            npc["r"] = 2.0
+        rew = (lambda: rng.choice([0, 1])) if lpk == "thompson" else (lambda: rng.choice([0, 1, 2, 5]))
+        ctxual = npk is not None or lpk in G.LIN_KINDS
+
+        def batch(k, w=d):
+            return {"d": [rng.choice(arms) for _ in range(k)], "r": [rew() for _ in range(k)],
+                    "c": [[float(rng.randint(0, 4)) for _ in range(w)] for _ in range(k)] if ctxual else None}
+        q = {"op": "pexp", "c": [[float(rng.randint(0, 4)) for _ in range(d)] for _ in range(3)] if ctxual else None}
+        if late:
+            bad = dict(batch(700), op="pfit", bad="nonfinite")
+            bad["r"][rng.choice([600, 512, 699])] = rng.choice(["nan", "inf", None])
+            ops = [dict(batch(30), op="fit"), dict(q), bad, dict(q), dict(batch(5), op="pfit"), dict(q)]
+        else:
+            bad = dict(batch(4, w=d + 1), op="pfit", bad="width")
+            ops = [dict(batch(700), op="fit"), dict(q), bad, dict(q), dict(batch(6), op="pfit"), dict(q), {"op": "pred", "c": q["c"]}]
+        return {"cfg": {"lp": lp, "np": npc, "arms": arms, "seed": rng.randint(0, 10 ** 6), "binz": None, "n_jobs": 1}, "ops": ops}
     rng, g = _gen(seed, index, BAD_PROFILE)
     scn = g.build()
     return scn
@@ -1325,6 +1361,27 @@ def gen_c14(seed, index):
     prof = {"name": "C14", "lp": ["thompson"], "np": [None] + G.NP_KINDS, "p_binz": 0.75, "p_add_binz": 0.6,
             "weights": {"fit": 1, "pfit": 4, "query": 3, "add": 2, "rem": 0.5, "warm": 0}, "n_ops": (3, 9),
             "unknown_labels": False}
+    if index % 10 == 6:
+        # many arms whose labels are prefixes of one another as text (1, 12, 123 / "item", "item1"), rewards of two and
+        # three digits, an arm-dependent binarizer; one training batch of more than 2^10 rows now and then
+        rng = random.Random("%s/C14-many/%s" % (seed, index))
+        kind = index % 30
+        arms = list(range(1, 15)) if kind == 6 else (["item", "item1", "item12", "1", "12", "123", "2", "23"] if kind == 16 else
+                                                     [1.5, 1.52, 15.2, 2.0, 20.0, 0.2])
+        npk = rng.choice([None, None, "knn", "radius", "clusters"])
+        npc = G.gen_np(rng, npk, len(arms), 2)
+        if npc and npc["k"] == "radius":
+            npc["probs"] = None
+            npc["r"] = 3.0
+        n = rng.choice([40, 60, 1100])
+        rew = lambda: float(rng.choice([3, 12, 20, 23, 0, 2, 112, 1]))      # noqa: E731
+        def batch(k):                                                       # noqa: E306
+            return {"d": [rng.choice(arms) for _ in range(k)], "r": [rew() for _ in range(k)],
+                    "c": [[float(rng.randint(0, 4)), float(rng.randint(0, 4))] for _ in range(k)] if npk else None}
+        q = {"op": "pexp", "c": [[1.0, 2.0], [3.0, 3.0]] if npk else None}
+        ops = [dict(batch(n), op="fit"), dict(q), dict(batch(30), op="pfit"), dict(q)]
+        return {"cfg": {"lp": {"k": "thompson"}, "np": npc, "arms": arms, "seed": rng.randint(0, 10 ** 6), "binz": rng.choice([2, 4]),
+                        "n_jobs": 1}, "ops": ops}
     rng, g = _gen(seed, index, prof)
     return g.build()
 
@@ -2140,6 +2197,42 @@ def gen_c18(seed, index):
     prof = {"name": "C18", "lp": ALL_LP, "np": [None, None] + G.NP_KINDS, "p_binz": 0.5,
             "weights": {"fit": 1, "pfit": 3, "query": 3, "add": 1, "rem": 0.5, "warm": 0.7}, "n_ops": (3, 8),
             "dims": [1, 1, 2, 3], "unknown_labels": False}
+    if index % 16 == 5:
+        # long Python lists whose first 256 entries are integers and whose later entries are not (rewards, contexts,
+        # numeric arm labels): the element type of a list is the type of *all* its elements
+        rng = random.Random("%s/C18-long/%s" % (seed, index))
+        npk = rng.choice([None, "knn", "radius", None])
+        lpk = rng.choice(["greedy", "ucb", "linucb", "softmax"]) if npk is None else rng.choice(["greedy", "ucb"])
+        lp = G.gen_lp(rng, lpk)
+        if "eps" in lp:
+            lp["eps"] = 0.0
+        arms = [1, 2, 2.5]
+        npc = G.gen_np(rng, npk, len(arms), 2)
+        if npc and npc["k"] == "radius":
+            npc["probs"] = None
+            npc["r"] = 2.0
+        n = 300
+        dec = [rng.choice([1, 2]) for _ in range(270)] + [rng.choice(arms) for _ in range(n - 270)]
+        rew = [rng.choice([0, 1, 2, 5]) for _ in range(270)] + [rng.choice([0.5, 1.25, 2, 3.75]) for _ in range(n - 270)]
+        ctxual = npk is not None or lpk in G.LIN_KINDS
+        ctx = ([[float(rng.randint(0, 4)), float(rng.randint(0, 4))] for _ in range(270)] +
+               [[rng.randint(0, 4) + 0.5, rng.randint(0, 4) + 0.25] for _ in range(n - 270)]) if ctxual else None
+        q = {"op": "pexp", "c": [[1.0, 2.0], [3.5, 0.25]] if ctxual else None}
+        return {"cfg": {"lp": lp, "np": npc, "arms": arms, "seed": rng.randint(0, 10 ** 6), "binz": None, "n_jobs": 1},
+                "ops": [{"op": "fit", "d": dec, "r": rew, "c": ctx}, q, {"op": "pred", "c": q["c"]}],
+                "variant": rng.choice(["ndarray", "pandas"])}
+    if index % 16 == 13:
+        # an empty-neighbourhood distribution that passes validation (sums to one within 1e-5) without summing to one exactly
+        rng = random.Random("%s/C18-probs/%s" % (seed, index))
+        arms = [1, 2, 3]
+        npc = rng.choice([{"k": "radius", "r": 0.5, "metric": "euclidean", "probs": [0.33334, 0.33333, 0.33334]},
+                          {"k": "lsh", "ndim": 12, "ntab": 1, "probs": [0.5, 0.25, 0.250004]}])
+        n = 8
+        ops = [{"op": "fit", "d": [arms[i % 3] for i in range(n)], "r": [rng.choice([0, 1, 2]) for _ in range(n)],
+                "c": [[float(rng.randint(0, 2)), float(rng.randint(0, 2))] for _ in range(n)]},
+               {"op": "pred", "c": [[50.0, -40.0]]}, {"op": "pred", "c": [[60.0, -45.0], [70.0, 80.0]]}]
+        return {"cfg": {"lp": {"k": "greedy", "eps": 0.0}, "np": npc, "arms": arms, "seed": rng.randint(0, 10 ** 6), "binz": None,
+                        "n_jobs": 1}, "ops": ops, "variant": "ndarray"}
     if index % 8 == 3:
         # stored histories: the first training call names only the shortest string labels (or only integral numeric
         # labels), a later partial_fit brings a longer label (a non-integral one): whatever dtype the first call
